@@ -127,6 +127,58 @@ def roles(repo) -> Roles:
     return r
 
 
+def override_forwarding(repo):
+    """For every SMC sampler class that overrides sample(): which of its parameters
+    that the base sample() also has are handed on to super().sample() under the same
+    name.  Yields (class, override, parameter, forwarded, call node)."""
+    smc = repo.cls(SMC)
+    base = smc.methods.get("sample")
+    base_params = base.params[1:]
+    for c in repo.subclasses(smc, strict=True):
+        ov = c.methods.get("sample")
+        if ov is None:
+            continue
+        calls = [n for n in walk_no_nested(ov.node) if isinstance(n, ast.Call) and isinstance(n.func, ast.Attribute) and n.func.attr == "sample"
+                 and isinstance(n.func.value, ast.Call) and isinstance(n.func.value.func, ast.Name) and n.func.value.func.id == "super"]
+        if len(calls) != 1:
+            yield c, ov, None, False, None
+            continue
+        call = calls[0]
+        # the parent that super() reaches may itself be an override with fewer parameters
+        parent = c.resolve_after(c, "sample") if hasattr(c, "resolve_after") else base
+        parent_params = (parent.params[1:] if parent is not None else base_params)
+        handed = {}
+        for pn, a in zip(parent_params, call.args):
+            handed[pn] = a
+        for k in call.keywords:
+            if k.arg is not None:
+                handed[k.arg] = k.value
+        splat = any(k.arg is None for k in call.keywords)
+        for p in ov.params[1:]:
+            if p not in parent_params:
+                continue
+            v = handed.get(p)
+            ok = splat or (v is not None and any(isinstance(x, ast.Name) and x.id == p for x in ast.walk(v)))
+            yield c, ov, p, ok, call
+
+
+def forwarding_rule(ctx, rule, params, consequence):
+    """Every sampler class that overrides sample() hands the named options on to the
+    sample() it extends (an option accepted and silently dropped changes the run)."""
+    from .common import loc_of
+    n = 0
+    for c, ov, p, ok, call in override_forwarding(ctx.repo):
+        if p is None:
+            ctx.unknown(rule, ov.ident, loc_of(ov), "expected exactly one super().sample(...) call in the override", disc="forward")
+            continue
+        if p not in params:
+            continue
+        n += 1
+        ctx.decide(ok, rule, ov.ident, loc_of(ov, call), f"{c.name}.sample hands `{p}` on to the sample() it extends",
+                   f"{c.name}.sample accepts `{p}` but does not hand it on to super().sample(): {consequence}", disc=f"forward|{p}")
+    return n
+
+
 def checkpoint_closure(repo):
     """The nested function of SMCSampler.sample that builds the checkpoint payload
     (found by what it does, not by its name)."""
